@@ -77,7 +77,32 @@ class ReadableCount(Contract):
         from fractions import Fraction
         from neuroglancer_scripts.utils import readable_count
         n = model.get("count", 0)
-        return self.native(n)
+        r = self.native(n)
+        if r["reproduced"]:
+            return r
+        # the solver's witness lies in a band where the float model is loose: search the band edges
+        for cand in self.bounded_models(cfg, "quick"):
+            r2 = self.native(cand["count"])
+            if r2["reproduced"]:
+                r2["detail"] += f" (found by the bounded search around prefix boundaries; solver model was count={n})"
+                return r2
+        return r
+
+    bounded_bound = "counts m*1024^k (+-3) for m in {1, 9.5, 9.95, 10, 99.5, 100, 999.5, 1000, 1023.5, 1023.99} and k = 0..7, plus 0..2000"
+
+    def bounded_models(self, cfg, tier):
+        from fractions import Fraction
+        seen = set()
+        for n in range(0, 2001):
+            yield {"count": n}
+        for k in range(0, 8):
+            for m in ("1", "1.5", "9.5", "9.94", "9.95", "9.96", "10", "10.5", "99.5", "100", "999.4", "999.5", "1000", "1023.5", "1023.99"):
+                base = int(Fraction(m) * (1 << (10 * k)))
+                for d in (-3, -1, 0, 1, 3):
+                    n = base + d
+                    if n >= 0 and n not in seen:
+                        seen.add(n)
+                        yield {"count": n}
 
     @staticmethod
     def native(n):
